@@ -26,6 +26,9 @@ M = "black_it.utils.time_series"
 
 
 def run(ctx: Context) -> None:
+    # the summaries and filters are functions of the series: the module keeps nothing between calls (module-state rule of C05, kept to utils/time_series.py)
+    from . import c18 as _c18
+    ctx.rule(_c18.no_shared_tables, "black_it/utils/time_series.py")
     ctx.rule(hp)
     ctx.rule(wrappers)
     ctx.rule(moments)
